@@ -8,6 +8,10 @@ pub mod common;
 pub mod c01;
 pub mod c02;
 pub mod c05;
+pub mod c17;
+pub mod c12;
+pub mod c06;
+pub mod c11;
 
 #[derive(Default)]
 pub struct RunResult {
@@ -28,6 +32,10 @@ pub fn generate(property: &str, run_seed: u64) -> Scenario {
         "C01" => c01::generate(run_seed),
         "C02" => c02::generate(run_seed),
         "C05" => c05::generate(run_seed),
+        "C17" => c17::generate(run_seed),
+        "C12" => c12::generate(run_seed),
+        "C06" => c06::generate(run_seed),
+        "C11" => c11::generate(run_seed),
         other => panic!("no generator for property {other}"),
     }
 }
@@ -38,6 +46,10 @@ pub fn execute(scn: &Scenario, keep_log: bool) -> (RunResult, Vec<String>) {
         "C01" => crate::with_scheme!(scn.scheme.as_str(), c01_run(scn, &log)),
         "C02" => crate::with_scheme!(scn.scheme.as_str(), c02_run(scn, &log)),
         "C05" => crate::with_scheme!(scn.scheme.as_str(), c05_run(scn, &log)),
+        "C17" => crate::with_scheme!(scn.scheme.as_str(), c17_run(scn, &log)),
+        "C12" => crate::with_scheme!(scn.scheme.as_str(), c12_run(scn, &log)),
+        "C06" => crate::with_scheme!(scn.scheme.as_str(), c06_run(scn, &log)),
+        "C11" => crate::with_scheme!(scn.scheme.as_str(), c11_run(scn, &log)),
         other => RunResult { harness: Some(format!("no executor for property {other}")), ..Default::default() },
     };
     res.log_digest = log.digest();
@@ -55,4 +67,20 @@ fn c02_run<S: crate::schemes::Scheme>(scn: &Scenario, log: &EventLog) -> RunResu
 
 fn c05_run<S: crate::schemes::Scheme>(scn: &Scenario, log: &EventLog) -> RunResult {
     c05::run::<S>(scn, log)
+}
+
+fn c11_run<S: crate::schemes::Scheme>(scn: &Scenario, log: &EventLog) -> RunResult {
+    c11::run::<S>(scn, log)
+}
+
+fn c06_run<S: crate::schemes::Scheme>(scn: &Scenario, log: &EventLog) -> RunResult {
+    c06::run::<S>(scn, log)
+}
+
+fn c12_run<S: crate::schemes::Scheme>(scn: &Scenario, log: &EventLog) -> RunResult {
+    c12::run::<S>(scn, log)
+}
+
+fn c17_run<S: crate::schemes::Scheme>(scn: &Scenario, log: &EventLog) -> RunResult {
+    c17::run::<S>(scn, log)
 }
